@@ -278,4 +278,119 @@ example : viOfPre (prepro_Min (envOf exB) [0, 1, 2] []).pre = { lb := some (-3),
 open MpVerif.Gen.C06 in
 example : viOfPre (prepro_Abs (envOf exB) [0] []).pre = { lb := some 0, ub := some 3, isInt := true } := by decide +kernel
 
+/-! ## round 8: `ComputeBoundsAndType(const LinTerms&)` / `(const AffineExpr&)` of expr_bounds.h = `linBnd` / `affBnd`
+
+`linBnd` gives every big-M constant of the indicator gadgets (`gIndLE/gIndGE/gIndEQ`), the integer/continuous decision behind the
+comparison epsilon and the created bounds of affine result variables.  The generated `linInit` / `linStep` / `withConst`
+(lean/MpVerif/Gen/C06Prepro.lean) are the initialisation, the loop body and the constant step translated from the source.
+Divergence kept explicit: a ZERO coefficient on a variable with an infinite bound is `0 * inf = NaN` in the C++ and "infinite" in the
+model (documented at `linBnd`); the tie is stated for bodies without such a term. -/
+
+/-- no term `0 * x` with `x` unbounded on a side -/
+def noZeroInf (B : Bnds) (body : Lin) : Prop :=
+  ∀ p ∈ body, p.1 ≠ 0 ∨ ((B p.2).lb.isSome ∧ (B p.2).ub.isSome)
+
+/-- a `PreprocessInfo` that is the embedding of model bounds `(l, u, ty)` -/
+def preIs (r : MpVerif.C06.Pre) (l u : Option Rat) (ty : Bool) : Prop := r.lb = erLb l ∧ r.ub = erUb u ∧ r.int = ty
+
+theorem add_lb_scaled_pos (c : Rat) (hc : 0 < c) (l x : Option Rat) :
+    add (erLb l) (mul (.fin c) (erLb x)) = erLb (optAdd (optScale c x) l) := by
+  have h0 : c ≠ 0 := by grind
+  cases l <;> cases x <;> simp [erLb, optAdd, optScale, mul, add, infTimes, h0, hc] <;> grind
+theorem add_ub_scaled_pos (c : Rat) (hc : 0 < c) (u x : Option Rat) :
+    add (erUb u) (mul (.fin c) (erUb x)) = erUb (optAdd (optScale c x) u) := by
+  have h0 : c ≠ 0 := by grind
+  cases u <;> cases x <;> simp [erUb, optAdd, optScale, mul, add, infTimes, h0, hc] <;> grind
+theorem add_lb_scaled_neg (c : Rat) (hc : c < 0) (l x : Option Rat) :
+    add (erLb l) (mul (.fin c) (erUb x)) = erLb (optAdd (optScale c x) l) := by
+  have h0 : c ≠ 0 := by grind
+  have h1 : ¬ (0 < c) := by grind
+  cases l <;> cases x <;> simp [erLb, erUb, optAdd, optScale, mul, add, infTimes, h0, h1] <;> grind
+theorem add_ub_scaled_neg (c : Rat) (hc : c < 0) (u x : Option Rat) :
+    add (erUb u) (mul (.fin c) (erLb x)) = erUb (optAdd (optScale c x) u) := by
+  have h0 : c ≠ 0 := by grind
+  have h1 : ¬ (0 < c) := by grind
+  cases u <;> cases x <;> simp [erLb, erUb, optAdd, optScale, mul, add, infTimes, h0, h1] <;> grind
+theorem add_lb_scaled_fin (c a : Rat) (l : Option Rat) :
+    add (erLb l) (mul (.fin c) (.fin a)) = erLb (optAdd (optScale c (some a)) l) := by
+  cases l <;> simp [erLb, optAdd, optScale, mul, add] <;> grind
+theorem add_ub_scaled_fin (c a : Rat) (u : Option Rat) :
+    add (erUb u) (mul (.fin c) (.fin a)) = erUb (optAdd (optScale c (some a)) u) := by
+  cases u <;> simp [erUb, optAdd, optScale, mul, add] <;> grind
+
+open MpVerif.Gen.C06 in
+/-- one iteration of the translated loop body = one step of `linBnd` -/
+theorem linStep_pre (B : Bnds) (c : Rat) (v : Var) (r : MpVerif.C06.Pre) (l u : Option Rat) (ty : Bool)
+    (hr : preIs r l u ty) (hz : c ≠ 0 ∨ ((B v).lb.isSome ∧ (B v).ub.isSome)) :
+    preIs (linStep (envOf B) c v r)
+      (if 0 ≤ c then optAdd (optScale c (B v).lb) l else optAdd (optScale c (B v).ub) l)
+      (if 0 ≤ c then optAdd (optScale c (B v).ub) u else optAdd (optScale c (B v).lb) u)
+      (ty && (B v).isInt && isIntQ c) := by
+  obtain ⟨h1, h2, h3⟩ := hr
+  have hty : ((true != ((envOf B) v).int) || !(isInteger (.fin c))) = !((B v).isInt && isIntQ c) := by
+    simp only [envOf, isInteger_fin, isIntQ]; cases (B v).isInt <;> cases (c.den == 1) <;> rfl
+  by_cases hc : 0 ≤ c
+  · have hle : le (.fin 0) (.fin c) = true := by simp [le, lt, ER.eq]; grind
+    have hL : add r.lb (mul (.fin c) ((envOf B) v).lb) = erLb (optAdd (optScale c (B v).lb) l) := by
+      rw [h1]; show add (erLb l) (mul (.fin c) (erLb (B v).lb)) = _
+      by_cases h0 : c = 0
+      · rcases hz with hz | ⟨hz1, _⟩
+        · exact absurd h0 hz
+        · obtain ⟨a, ha⟩ := Option.isSome_iff_exists.mp hz1; rw [ha]; exact add_lb_scaled_fin c a l
+      · exact add_lb_scaled_pos c (by grind) l _
+    have hU : add r.ub (mul (.fin c) ((envOf B) v).ub) = erUb (optAdd (optScale c (B v).ub) u) := by
+      rw [h2]; show add (erUb u) (mul (.fin c) (erUb (B v).ub)) = _
+      by_cases h0 : c = 0
+      · rcases hz with hz | ⟨_, hz2⟩
+        · exact absurd h0 hz
+        · obtain ⟨a, ha⟩ := Option.isSome_iff_exists.mp hz2; rw [ha]; exact add_ub_scaled_fin c a u
+      · exact add_ub_scaled_pos c (by grind) u _
+    simp only [linStep, hle, if_true, hty, hL, hU, hc, preIs]
+    cases hb : ((B v).isInt && isIntQ c) <;> simp [hb, h3] <;> simp_all
+  · have hle : le (.fin 0) (.fin c) = false := by simp [le, lt, ER.eq]; grind
+    have hlt : c < 0 := by grind
+    have hL : add r.lb (mul (.fin c) ((envOf B) v).ub) = erLb (optAdd (optScale c (B v).ub) l) := by
+      rw [h1]; exact add_lb_scaled_neg c hlt l _
+    have hU : add r.ub (mul (.fin c) ((envOf B) v).lb) = erUb (optAdd (optScale c (B v).lb) u) := by
+      rw [h2]; exact add_ub_scaled_neg c hlt u _
+    simp only [linStep, hle, Bool.false_eq_true, if_false, hty, hL, hU, hc, preIs]
+    cases hb : ((B v).isInt && isIntQ c) <;> simp [hb, h3] <;> simp_all
+
+open MpVerif.Gen.C06 in
+/-- **`ComputeBoundsAndType(const LinTerms&)`** (initialisation and loop body translated from expr_bounds.h, folded last term first like
+the C++ loop) computes exactly `linBnd`, for all bounds and all bodies without a `0 * unbounded` term -/
+theorem C01_gen_linbnd (B : Bnds) (body : Lin) (hz : noZeroInf B body) :
+    preIs (body.foldr (fun t r => linStep (envOf B) t.1 t.2 r) linInit) (linBnd B body).1 (linBnd B body).2.1 (linBnd B body).2.2 := by
+  induction body with
+  | nil => exact ⟨rfl, rfl, rfl⟩
+  | cons p t ih =>
+    obtain ⟨c, v⟩ := p
+    have ih' := ih (fun q hq => hz q (List.mem_cons_of_mem _ hq))
+    have hstep := linStep_pre B c v _ _ _ _ ih' (hz (c, v) (List.mem_cons_self ..))
+    simp only [List.foldr_cons]
+    have hl : linBnd B ((c, v) :: t) =
+        (if 0 ≤ c then (optAdd (optScale c (B v).lb) (linBnd B t).1, optAdd (optScale c (B v).ub) (linBnd B t).2.1,
+                         (linBnd B t).2.2 && (B v).isInt && isIntQ c)
+         else (optAdd (optScale c (B v).ub) (linBnd B t).1, optAdd (optScale c (B v).lb) (linBnd B t).2.1,
+               (linBnd B t).2.2 && (B v).isInt && isIntQ c)) := by
+      simp only [linBnd]
+    rw [hl]
+    by_cases hc : 0 ≤ c <;> simp only [hc, if_true, if_false] at hstep ⊢ <;> exact hstep
+
+open MpVerif.Gen.C06 in
+/-- **`ComputeBoundsAndType(const AffineExpr&)`** = `affBnd` (the created bounds/type of a `LinearFunctionalConstraint` result) -/
+theorem C01_gen_affbnd (B : Bnds) (body : Lin) (c0 : Rat) (hz : noZeroInf B body) :
+    viOfPre (withConst (body.foldr (fun t r => linStep (envOf B) t.1 t.2 r) linInit) c0) = affBnd B body c0 := by
+  obtain ⟨h1, h2, h3⟩ := C01_gen_linbnd B body hz
+  have ha : ∀ l : Option Rat, add (erLb l) (.fin c0) = erLb (l.map (· + c0)) := by intro l; cases l <;> simp [erLb, add]
+  have hb : ∀ u : Option Rat, add (erUb u) (.fin c0) = erUb (u.map (· + c0)) := by intro u; cases u <;> simp [erUb, add]
+  simp only [withConst, affBnd, viOfPre, isInteger_fin, h1, h2, h3, ha, hb]
+  cases hq : (c0.den == 1) <;> simp [hq, isIntQ, h3, optOf_erLb, optOf_erUb]
+
+/-- non-vacuity: the translated loop on concrete bounds (`2*x0 - x1 + 1/2` with `x0 ∈ [-3,2]` integer, `x1 ∈ [1, inf)`) -/
+example : viOfPre (MpVerif.Gen.C06.withConst
+    (([(2, 0), (-1, 1)] : Lin).foldr (fun t r => MpVerif.Gen.C06.linStep (envOf exB) t.1 t.2 r) MpVerif.Gen.C06.linInit) (1/2))
+    = { lb := none, ub := some (7/2), isInt := false } := by decide +kernel
+example : noZeroInf exB [(2, 0), (-1, 1)] := by intro p hp; left; simp at hp; rcases hp with h | h <;> simp [h] <;> grind
+
 end MpVerif.C01
